@@ -104,7 +104,7 @@ fn c13_hms() {
     kani::cover!(leap);
 }
 
-// @ob tier=extra timeout=3600 mem=16
+// @ob tier=thorough timeout=4800 mem=16
 // @desc item-level format/parse inverse for %G-W%V-%u over ALL ISO week dates incl. negative and five/six-digit ISO years (the writer prints an explicit sign outside 0..=9999, the reader must accept it): the real writer's text for [IsoYear, "-W", IsoWeek, "-", WeekdayFromMon] parses back (format::parse + Parsed::to_naive_date) to the same date
 // @bounds all dates; items concrete; text <= 14 bytes
 // @funcs DelayedFormat::write_to, format_numeric (IsoYear, IsoWeek, WeekdayFromMon), write_year / write_n, format::parse / parse_internal, scan::number, Parsed::{set_isoyear, set_isoweek, set_weekday, to_naive_date}
